@@ -16,7 +16,9 @@
  * One line per pair on stdout:
  *   R mem=<M> stack=<S> status=<exit N|signal N|timeout|budget> steps=<n> last=<ip>,<sp>,<op>
  *     peak=<max sp seen before an instruction> ret=<nev_execute ret|-> result=<type>:<value>|-
- *     nilcell=<0|1: cell 0 of the heap holds an object at exit> out=<hex stdout> err=<hex stderr>
+ *     nilcell=<0|1: cell 0 of the heap holds an object at exit>
+ *     heap=<free list head>,<cells 1.. holding an object>,<mem_size>   (at exit)
+ *     out=<hex stdout> err=<hex stderr>
  * First line: COMPILE <ret>; after a failed prepare: PREPARE <ret>.
  */
 #define _GNU_SOURCE
@@ -45,6 +47,7 @@ typedef struct
     volatile unsigned long steps;
     volatile int last_ip, last_sp, last_op, peak_sp;
     volatile int ret, have_ret, result_type, budget, nilcell;
+    volatile unsigned heap_free, heap_used, heap_size;
     volatile long long result_bits;
 } shared;
 
@@ -70,7 +73,13 @@ static void audit(void)
 {
     if (tracef) fflush(tracef);
     if (g_machine && g_machine->collector && g_machine->collector->mem && g_machine->collector->mem_size > 0)
-        sh->nilcell = g_machine->collector->mem[0].object_value != NULL;
+    {
+        gc * c = g_machine->collector;
+        unsigned used = 0;
+        sh->nilcell = c->mem[0].object_value != NULL;
+        for (unsigned a = 1; a < c->mem_size; a++) if (c->mem[a].object_value != NULL) used++;
+        sh->heap_free = c->free; sh->heap_used = used; sh->heap_size = c->mem_size;
+    }
 }
 
 static void hexfile(const char * path, size_t limit)
@@ -202,7 +211,7 @@ int main(int argc, char ** argv)
         printf(" steps=%lu last=%d,%d,%d peak=%d", sh->steps, sh->last_ip, sh->last_sp, sh->last_op, sh->peak_sp);
         if (sh->have_ret) printf(" ret=%d", sh->ret); else printf(" ret=-");
         if (sh->have_ret && sh->ret == 0) printf(" result=%d:%lld", sh->result_type, sh->result_bits); else printf(" result=-");
-        printf(" nilcell=%d out=", sh->nilcell);
+        printf(" nilcell=%d heap=%u,%u,%u out=", sh->nilcell, sh->heap_free, sh->heap_used, sh->heap_size);
         hexfile(fo, 1 << 16);
         printf(" err=");
         hexfile(fe, 1 << 14);
